@@ -241,6 +241,37 @@ def _evaluated_keys(prog, b, method, line):
     return out
 
 
+REMOVERS = ("pop_attr", "pop", "remove_attrs", "without_attr", "remove_attr")
+
+
+def removal_names(prog, b, t):
+    """the attribute names a removal call names: a literal, a literal list or a named table of literals; None when
+    the key is computed"""
+    if len(t["args"]) < 2:
+        return None
+    o = R.origin(b, t["args"][1], carriers=dict(R.CARRIERS))
+    if o[0] != "const":
+        return None
+    if "str" in o[1]:
+        return [o[1]["str"]]
+    if "array" in o[1]:
+        return [k["str"] for k in o[1]["array"] if isinstance(k, dict) and "str" in k]
+    if "named" in o[1]:
+        if "promoted" in o[1]:
+            return None
+        return prog.const_strings(o[1]["named"])  # a named table: `remove_attrs(RECT_FOREIGN_ATTRS)`
+    return None
+
+
+def removal_sites(prog, b):
+    """[(block, terminator, names | None)] for every attribute removal in the body"""
+    out = []
+    for (bb, t, c) in b.call_sites(lambda c: c.path.split("::")[-1] in REMOVERS and ("SvgElement" in c.path or "AttrMap" in c.path)):
+        if len(t["args"]) >= 2:
+            out.append((bb, t, removal_names(prog, b, t)))
+    return out
+
+
 def consumed(prog, chk):
     with open(SPEC) as fh:
         svg = set(json.load(fh)["attributes"])
@@ -248,16 +279,10 @@ def consumed(prog, chk):
     for b in prog.bodies.values():
         if b.unit != "svgdx-lib":
             continue
-        for (bb, t, c) in b.call_sites(lambda c: c.path.split("::")[-1] in ("pop_attr", "pop", "remove_attrs", "without_attr", "remove_attr") and ("SvgElement" in c.path or "AttrMap" in c.path)):
+        for (bb, t, c) in b.call_sites(lambda c: c.path.split("::")[-1] in REMOVERS and ("SvgElement" in c.path or "AttrMap" in c.path)):
             if len(t["args"]) < 2:
                 continue
-            o = R.origin(b, t["args"][1], carriers=dict(R.CARRIERS))
-            names = None
-            if o[0] == "const":
-                if "str" in o[1]:
-                    names = [o[1]["str"]]
-                elif "array" in o[1]:
-                    names = [k["str"] for k in o[1]["array"] if isinstance(k, dict) and "str" in k]
+            names = removal_names(prog, b, t)
             where = b.where(bb, t.get("line"))
             root = prog.bodies[b.root].path if b.root and b.root in prog.bodies else b.path
             if root not in DYNAMIC_OK and not any(k[1] == root for k in CONSUMED_OK):
